@@ -1,5 +1,5 @@
 Require Extraction.
 Require Import ExtrOcamlBasic.
 From Coq Require Import QArith.
-From QV Require Import Decoders.Matching.
-Extraction "c13.ml" build add_edge edge nodes all_pms weight is_perfect is_min_pm min_pm_weight negate Qle_bool Qred.
+From QV Require Import Decoders.Matching Decoders.MatchingHist.
+Extraction "c13.ml" build add_edge edge nodes all_pms weight is_perfect is_min_pm min_pm_weight negate Qle_bool Qred step get.
